@@ -175,6 +175,46 @@ def validate_each(ctx, segs, tag):
     return [(segs[i], idx) for i, idx in res if idx is not None]
 
 
+SIG_ABORT = "harness-process-aborted"
+
+
+def run_harness(ctx, args, njobs_hint=None):
+    """Run the harness; if the *process* dies (e.g. the code under test asks the allocator for terabytes after a
+    corrupted length and the runtime aborts), find one execution that kills it by bisection over the job list and
+    return it as a violation instead of a tool error.  Returns (summary, crash_violation | None)."""
+    try:
+        summ, _ = harness(ctx, "substream", args)
+        return summ, None
+    except ToolError as e:
+        msg = str(e)
+        if "rc=-" not in msg and "memory allocation" not in msg:
+            raise
+        first = msg
+    # number of jobs: ask the harness to only write the job list
+    base = [a for a in args]
+    harness(ctx, "substream", base + ["--from", 0, "--to", 0])
+    n = len(read_lines(ctx.path("jobs_out.jsonl")))
+    lo, hi = 0, n                       # invariant: running [lo, hi) crashes
+    def crashes(a, b):
+        try:
+            harness(ctx, "substream", base + ["--from", a, "--to", b, "--threads", 4 if b - a > 64 else 1])
+            return False
+        except ToolError as e2:
+            return "rc=-" in str(e2) or "memory allocation" in str(e2)
+    while hi - lo > 1:
+        mid = (lo + hi) // 2
+        if crashes(lo, mid):
+            hi = mid
+        elif crashes(mid, hi):
+            lo = mid
+        else:
+            raise ToolError("harness crash is not reproducible on a sub-range of jobs:\n" + first[-1500:])
+    job = json.loads(read_lines(ctx.path("jobs_out.jsonl"))[lo])
+    return None, {"sig": SIG_ABORT, "what": "the harness process was killed while executing job %d (%s): %s"
+                                            % (lo, json.dumps(job)[:300], first[-300:].replace("\n", " ")),
+                  "replay_obj": {"property": "C04", "job": job, "segment": [], "aborts_process": True}}
+
+
 def run_mc(ctx, name, consts, lines, timeout=1500):
     r = tlc_mc(ctx, "SubstreamPipeMC.tla", write_cfg(ctx, "mc_%s.cfg" % name, consts, lines), workers=W(), timeout=timeout)
     if not r["ok"]:
@@ -229,8 +269,14 @@ def check(ctx):
     n_tlc_jobs = len(mains) + len(probes)
     build_s = cargo_build(ctx, ["substream"])
     nrand, nraw = (120000, 30000) if quick else (1200000, 300000)
-    summ, _ = harness(ctx, "substream", ["--jobs", ctx.path("jobs.jsonl"), "--random", nrand, "--random-raw", nraw, "--seed", ctx.seed,
-                                         "--threads", min(10, W()), "--out", ctx.path("trace.ndjson"), "--jobs-out", ctx.path("jobs_out.jsonl")])
+    summ, crash = run_harness(ctx, ["--jobs", ctx.path("jobs.jsonl"), "--random", nrand, "--random-raw", nraw, "--seed", ctx.seed,
+                                    "--threads", min(10, W()), "--out", ctx.path("trace.ndjson"), "--jobs-out", ctx.path("jobs_out.jsonl")])
+    if crash:
+        log("the harness process aborted; localised to one execution (reported as a violation, remaining executions not judged)")
+        return conclude(ctx, "model_checking", {"states": sum(m["distinct"] for m in mc), "transitions": sum(m["transitions"] for m in mc),
+                                                "traces_validated_against_impl": 0, "samples": [crash["replay_obj"]["job"]], "evaluations": 1,
+                                                "distinct_nontrivial": 1, "rule": "run cut short: the harness process was killed by the code under test",
+                                                "model_runs": mc, "generation": gstats}, [crash], ASSUME)
     log("HARNESS: %s (build %ss; %d TLC-generated schedules, %d hand-written probes)" % (summ, build_s, n_tlc_jobs, len(hand)))
     lines = read_lines(ctx.path("trace.ndjson"))
     segs = split_segments(lines, is_reset)
@@ -356,7 +402,13 @@ def replay(ctx, path):
     cargo_build(ctx, ["substream"])
     if obj.get("job"):
         write_jsonl(ctx.path("job.jsonl"), [obj["job"]])
-        harness(ctx, "substream", ["--jobs", ctx.path("job.jsonl"), "--threads", 1, "--out", ctx.path("r.ndjson")])
+        try:
+            harness(ctx, "substream", ["--jobs", ctx.path("job.jsonl"), "--threads", 1, "--out", ctx.path("r.ndjson")])
+        except ToolError as e:
+            if "rc=-" in str(e) or "memory allocation" in str(e):
+                log("replay: the harness process is killed by this execution: %s" % str(e)[-300:].replace("\n", " "))
+                return 1
+            raise
         lines = read_lines(ctx.path("r.ndjson"))
         log("replayed execution:")
     else:
